@@ -1,0 +1,73 @@
+//! Verification hooks, compiled only with `--cfg pyxis_verif`.
+//!
+//! The type-resolution loop in `SemanticState::build` visits the unresolved items in
+//! `HashMap` iteration order. With a scheduler installed (per thread), that order is
+//! chosen by the caller instead, once per resolution pass, so that resolution schedules
+//! can be enumerated rather than sampled. Without a scheduler nothing changes.
+
+use std::cell::RefCell;
+
+use crate::{grammar::ItemPath, semantic::TypeRegistry};
+
+/// Called at the top of every resolution pass with the pass index, the sorted worklist
+/// of unresolved item paths and a canonical dump of all non-predefined registry items.
+/// Returns the order in which the worklist is to be visited in this pass.
+pub type Scheduler = Box<dyn FnMut(usize, &[ItemPath], &str) -> Vec<ItemPath>>;
+
+struct State {
+    scheduler: Option<Scheduler>,
+    pass: usize,
+    order: Option<Vec<ItemPath>>,
+}
+
+thread_local! {
+    static STATE: RefCell<State> = const { RefCell::new(State { scheduler: None, pass: 0, order: None }) };
+}
+
+/// Installs (or removes) the scheduler for builds running on the current thread.
+pub fn set_scheduler(scheduler: Option<Scheduler>) {
+    STATE.with(|s| {
+        let mut s = s.borrow_mut();
+        s.scheduler = scheduler;
+        s.pass = 0;
+        s.order = None;
+    });
+}
+
+pub(crate) fn begin_pass(type_registry: &TypeRegistry) {
+    // Take the scheduler out while it runs so that it may itself call back into pyxis.
+    let Some(mut scheduler) = STATE.with(|s| s.borrow_mut().scheduler.take()) else {
+        return;
+    };
+    let pass = STATE.with(|s| s.borrow().pass);
+    let worklist = type_registry.worklist_for_verif();
+    let dump = type_registry.dump_for_verif();
+    let order = scheduler(pass, &worklist, &dump);
+    STATE.with(|s| {
+        let mut s = s.borrow_mut();
+        s.scheduler = Some(scheduler);
+        s.pass = pass + 1;
+        s.order = Some(order);
+    });
+}
+
+/// Whether a scheduler has chosen an order for the current pass on this thread.
+pub(crate) fn is_active() -> bool {
+    STATE.with(|s| {
+        let s = s.borrow();
+        s.scheduler.is_some() && s.order.is_some()
+    })
+}
+
+/// Orders `unresolved` by the order chosen for the current pass; `None` when no
+/// scheduler is installed.
+pub(crate) fn order_worklist(mut unresolved: Vec<ItemPath>) -> Option<Vec<ItemPath>> {
+    STATE.with(|s| {
+        let s = s.borrow();
+        let order = s.order.as_ref()?;
+        s.scheduler.as_ref()?;
+        unresolved.sort();
+        unresolved.sort_by_key(|p| order.iter().position(|o| o == p).unwrap_or(usize::MAX));
+        Some(unresolved)
+    })
+}
